@@ -422,6 +422,93 @@ fn sweep_leap_extreme_positions(cyc: &Cycle, rec: &Recorder) -> Tally {
     tl
 }
 
+/// leap tables by length x sign pattern x position of the last record relative to i64::MAX x transition layout: a table longer
+/// than any real one may take another code path (a bisection over a derived key instead of the scan), and a derived key such
+/// as `record time - previous correction` leaves the i64 range only when a long enough negative run meets a record near the
+/// limit. Each factor alone is in other sweeps; here they are multiplied.
+pub fn sweep_leap_long_tables(cyc: &Cycle, rec: &Recorder, thorough: bool) -> Tally {
+    let lens: Vec<usize> = if thorough { vec![1, 2, 3, 15, 16, 17, 31, 32, 33, 34, 63, 64, 65, 129, 257, 1000] } else { vec![2, 16, 17, 31, 32, 33, 34, 63, 64, 65, 129] };
+    let mut specs: Vec<(usize, u8, u8, u8)> = vec![];
+    for &n in &lens {
+        for sign in 0..3u8 {
+            for last in 0..7u8 {
+                for layout in 0..3u8 {
+                    specs.push((n, sign, last, layout));
+                }
+            }
+        }
+    }
+    let tl = specs
+        .par_iter()
+        .map(|&(n, sign, last, layout)| {
+            let corr = |i: usize| -> i32 {
+                let (i, h) = (i as i32, (n / 2) as i32);
+                match sign {
+                    0 => -(i + 1),
+                    1 => i + 1,
+                    _ => if i < h { -(i + 1) } else { -h + (i - h) + 1 },
+                }
+            };
+            let mut leaps: Vec<(i64, i32)> = (0..n).map(|i| (i as i64 * DAY28, corr(i))).collect();
+            // the down-then-up pattern must step by one at the turn
+            if sign == 2 {
+                for i in 1..n {
+                    let d = leaps[i].1 - leaps[i - 1].1;
+                    if d != 1 && d != -1 {
+                        leaps[i].1 = leaps[i - 1].1 + 1;
+                    }
+                }
+            }
+            let cn = leaps[n - 1].1;
+            let step = if sign == 0 { -1 } else { 1 };
+            let m = n as i64 + 1;
+            let last_time = match last {
+                0 => None,
+                1 => Some(i64::MAX),
+                2 => Some(i64::MAX - 1),
+                3 => Some(i64::MAX - m),
+                4 => Some(i64::MAX - m + 1),
+                5 => Some(i64::MAX - m - 1),
+                _ => Some(i64::MAX - DAY28),
+            };
+            if let Some(t) = last_time {
+                leaps.push((t, cn + step));
+            }
+            let end = n as i64 * DAY28;
+            let trans: Vec<(i64, usize)> = match layout {
+                0 => vec![(0, 1), (4_000_000_000i64.max(end + 1000), 0)],
+                1 => vec![(-1000, 1), (end / 2 + 7, 0), (end + DAY28 / 2, 1), (i64::MAX - 2 * m, 0)],
+                _ => (0..n.min(40)).map(|i| (i as i64 * DAY28 + (i as i64 % 3 - 1), (i + 1) % 2)).collect(),
+            };
+            let mut tl = Tally::default();
+            for rule_kind in 0..2u8 {
+                let r = guard(|| {
+                    let mut t2 = Tally::default();
+                    let types = base_types();
+                    let rule = if rule_kind == 1 { Some(MRule::Fixed(types[trans.last().unwrap().1])) } else { None };
+                    let z = MZone { trans: trans.clone(), types, leaps: leaps.clone(), rule };
+                    let mut probes = probes_for(&z);
+                    probes.extend([951_868_800, 3_999_999_999, end + 5, i64::MAX - 3 * m]);
+                    for &(t, _) in &trans {
+                        probes.extend([t.saturating_sub(m + 1), t.saturating_sub(m), t.saturating_add(m), t.saturating_add(m + 1)]);
+                    }
+                    probes.sort();
+                    probes.dedup();
+                    check_zone(cyc, &z, &probes, rec, "leap_long_tables", &mut t2);
+                    t2
+                });
+                match r {
+                    Ok(t2) => tl = tl.merge(t2),
+                    Err(msg) => rec.violation("leap_long_tables", json!({"kind":"leap_long","records":n,"sign_pattern":sign,"last_record":last,"layout":layout}), json!("no panic"), json!(msg)),
+                }
+            }
+            tl
+        })
+        .reduce(Tally::default, Tally::merge);
+    rec.sub("leap_long_tables", json!({"table_lengths": lens, "zones": tl.zones, "zones_refused_as_model_predicts": tl.rejected, "lookups": tl.evals}));
+    tl
+}
+
 /// long call histories on one thread (state recycled by a wrapping counter or a fixed-capacity table): a lookup in zone A, N
 /// lookups in zone B, a different lookup in zone A, for N = 2^k - 2 .. 2^k + 1, k = 4..=17; A has three types, B two
 /// the clock route: `find_current_local_time_type`, `DateTime::now`, `UtcDateTime::now` under every answer of the system clock
@@ -654,6 +741,7 @@ pub fn run(args: &Args) -> i32 {
     #[cfg(feature = "tz-std")]
     let total = if args.digest_mode { total } else { total.merge(sweep_clock_route(&cyc, &rec)) };
     let total = total.merge(sweep_leap_extreme_positions(&cyc, &rec));
+    let total = if args.digest_mode { total } else { total.merge(sweep_leap_long_tables(&cyc, &rec, thorough)) };
     // one-signed leap tables of 2.4 million records (accumulated correction >= record spacing), shared with the C12 engine
     let total = if args.digest_mode {
         total
